@@ -5,4 +5,4 @@ Extraction Language OCaml.
 Set Extraction Optimize.
 Extraction "extracted/model_srv.ml" Server.recv_datagram Server.tunnel_tun Server.sweep_clear Server.sweep_send
   Server.init_state Server.zc_frame Server.unz_frame Server.login_stub Server.getu
-  Users.init_users DnsMsg.write_dns DnsMsg.dns_encode_query DnsMsg.buf64k.
+  Users.init_users DnsMsg.write_dns DnsMsg.dns_encode_query DnsMsg.buf64k DnsMsg.client_extract.
